@@ -354,3 +354,44 @@ func H_C02_nonscalar() {
 	vAssert(o == oError, name+": equality against a non-scalar is an error (got "+oName(o)+")")
 	vCover("reached")
 }
+
+// H_C02_sequence: one evaluator, two data whose selected value has different
+// kinds: each comparison is still made in that value's own type.
+func H_C02_sequence() {
+	lit := []string{"7", "1", "true", "7.5", "0x7", "x"}[vChoose(6)]
+	mk := func(c int) (interface{}, func() (bool, bool)) { // value, oracle -> (invalid literal, equal)
+		switch c {
+		case 0:
+			x := vInt8()
+			return x, func() (bool, bool) { w, e := strconv.ParseInt(lit, 0, 64); return e != nil, w == int64(x) }
+		case 1:
+			x := vUint16()
+			return x, func() (bool, bool) { w, e := strconv.ParseUint(lit, 0, 64); return e != nil, w == uint64(x) }
+		case 2:
+			x := vStringN(1)
+			return x, func() (bool, bool) { return false, lit == x }
+		case 3:
+			x := vBool()
+			return x, func() (bool, bool) { w, e := strconv.ParseBool(lit); return e != nil, w == x }
+		default:
+			x := vFloat64()
+			vAssume(x == x)
+			return x, func() (bool, bool) { w, e := strconv.ParseFloat(lit, 64); return e != nil, w == x }
+		}
+	}
+	v1, o1 := mk(vChoose(5))
+	v2, o2 := mk(vChoose(5))
+	ev := mustCreate("k == 0")
+	setLit(ev, lit)
+	for i, c := range []struct {
+		v interface{}
+		o func() (bool, bool)
+	}{{v1, o1}, {v2, o2}} {
+		got, gerr := ev.Evaluate(map[string]interface{}{"k": c.v})
+		bad, eq := c.o()
+		which := []string{"first", "second"}[i]
+		vAssert((gerr != nil) == bad, which+" call: error iff the literal is invalid for the value's own type")
+		vAssert(gerr != nil || got == eq, which+" call: compared in the value's own type")
+	}
+	vCover("reached")
+}
